@@ -415,3 +415,58 @@ def distribution(cases, results):
         d[k]['empty_result'] += (not nontrivial(c, r))
         d[k]['max_len'] = max(d[k]['max_len'], len(c.get('x', c.get('l'))))
     return d
+
+
+# ---- translator tie: coq/gen/RunsGen.v regenerated from the source under test (translate/pyruns2coq.py) ----
+GEN = 'gen/RunsGen.v'
+TRUSTED += ['translate/pyruns2coq.py (fail-closed AST translator of util.ts / edge_rising / edge_falling / epochs / smooth_epochs / '
+            'debounce_epochs to coq/gen/RunsGen.v; arrays are values - in-place updates are accepted only on arrays the function '
+            'created itself; it pins: the signature `epochs(x, pad=0)` with pad fixed to 0, the whole `if pad:` block of epochs by its '
+            'exact text (dropped: the pad != 0 path is NOT covered by the tie), `np.array([]).reshape((0, 2))` as the empty (0, 2) '
+            'array; docstrings and comments are ignored; self-tested on every run: the emitted definitions are evaluated by coqc '
+            '(vm_compute) on ~250 inputs against the real functions)',
+            'the NumPy / Python primitives of coq/Runs/NumpyPrims.v as modelled (exercised by that self-test, not proved): '
+            'bind, and_lazy (short-circuit `and`), np_index / np_index2 (a[i], a[i, j], negative indices wrap, out of range raises), '
+            'np_col0 / np_col1 (a[:, c]), np_astype_i, np_diff, np_r_cons / np_r_snoc (np.r_), np_eq_s / np_ge_s (array vs scalar), '
+            'np_sub, np_flatnonzero, np_c_ (unequal lengths raise), np_select (boolean row selection, a copy), np_col1_add / '
+            'np_col1_sub (a[:, 1] += d), np_sort_axis0 (each column sorted independently), np_array (copy), np_empty_0_2, py_append']
+ASSUMPTIONS += ['translator tie: the while loops of smooth_epochs are Fixpoints on fuel; the tie theorems hold for every fuel above the '
+                'number of intervals (C18_source_smooth_fuel_refuted: not for less) - termination within that bound is part of the claim']
+
+
+def translate(repo):
+    """Regenerate coq/gen/RunsGen.v from <repo>/psiaudio/util.py and self-test it.  A source the translator cannot digest, a
+    generated file that does not type-check or a failed self-test raise: the driver reports a broken tie (fail closed)."""
+    import os
+    import random
+    import vlib
+    from translate import pyruns2coq
+    path = os.path.join(vlib.COQ, GEN)
+    head = ('(* GENERATED on every run by harness/C18.py translate() with translate/pyruns2coq.py from\n'
+            f'   {repo}/psiaudio/util.py - do not edit.  Vocabulary: coq/Runs/NumpyPrims.v.  Tie theorems: coq/Runs/ProofsTie.v. *)\n')
+    try:
+        text, info = pyruns2coq.translate(repo)
+    except pyruns2coq.TranslatorGap as e:
+        msg = ''.join(ch if ch.isalnum() or ch in " _.,:;()[]{}=+-*/<>'`" else ' ' for ch in str(e))
+        msg = msg.replace('(*', '( *').replace('*)', '* )')[:400]
+        with open(path, 'w') as f:          # deliberately ill-typed: whoever builds it sees the reason
+            f.write(head + 'From Coq Require Import ZArith String.\n' + f'Definition translator_gap : Z :=\n  "{msg}"%string.\n')
+        raise
+    with open(path, 'w') as f:              # always rewritten: always re-checked
+        f.write(head + text)
+    rc, out = vlib.coq_build('gen/RunsGen.vo')
+    if rc != 0:
+        raise pyruns2coq.TranslatorGap('the generated file does not type-check: ' + out[-800:])
+    util = _util()
+    if os.path.realpath(util.__file__) != os.path.realpath(os.path.join(repo, 'psiaudio', 'util.py')):
+        raise vlib.MachineryError(f'psiaudio.util is {util.__file__}, not the translated source under {repo}')
+    terms = pyruns2coq.selftest_terms(util, random.Random(7))
+    try:
+        failing = vlib.run_cases(PROP, ['gen.RunsGen', 'Runs.NumpyPrims'], terms, tag='tieself')
+    except vlib.MachineryError as e:
+        raise pyruns2coq.TranslatorGap('self-test could not be evaluated: ' + str(e)[-600:])
+    if failing:
+        raise pyruns2coq.TranslatorGap(f'self-test: the generated definitions disagree with the real functions on {len(failing)} of '
+                                       f'{len(terms)} inputs, first: {terms[failing[0]]}')
+    info.update(gen_files=[GEN], primitives=pyruns2coq.PRIMITIVES, selftest={'evaluations': len(terms), 'failing': 0})
+    return info
